@@ -1308,10 +1308,15 @@ pub fn cmd_string_range(_interp: &mut Interp, _: ContextID, argv: &[Value]) -> M
         }
     };
 
+    // An empty range: first > last.
+    if clamp(first) > last {
+        return molt_ok!("");
+    }
+
     let substr = string
         .chars()
         .skip(clamp(first) as usize)
-        .take((clamp(last) - clamp(first) + 1) as usize)
+        .take((clamp(last) - clamp(first)).saturating_add(1) as usize)
         .collect::<String>();
 
     molt_ok!(substr)
